@@ -15,6 +15,7 @@ type c10X struct {
 	Pre      int // 0 greeted, 1 authenticated, 2 mid-transaction, 3 mid-BDAT
 	Inject   int // 0 absent, 1 same segment as STARTTLS, 2 later segment before the ClientHello
 	AuthBE   bool
+	TLSBdat  bool // a chunked message is sent inside TLS under a size limit
 	StartIdx int
 	EhloPre  int
 	Tail     []string // expectation per in-TLS step: "5", "250", "221", "!503", "ehlo"
@@ -60,7 +61,13 @@ func genC10(t *Tape, tier string) *Scenario {
 	}
 	if x.Pre == 3 {
 		steps = append(steps, Step{Kind: kBdat, Data: line("BDAT 10")}, Step{Kind: kPayload, Data: []byte("0123456789"), Wait: 1})
-		cp.Data = append(cp.Data, DataPlan{ParkAfter: Dur(t.Intn(5)) * time.Millisecond})
+		cp.Data = append(cp.Data, DataPlan{ParkAfter: Dur(t.Intn(5)) * time.Millisecond}, DataPlan{})
+		if t.Bool() {
+			// a size limit that the chunk sent in plaintext and the message sent inside
+			// TLS each meet, but not their sum
+			sc.Srv.MaxMsg = 30
+			x.TLSBdat = true
+		}
 	}
 	x.StartIdx = len(steps)
 	st := Step{Kind: kStartTLS, Data: []byte("STARTTLS\r\n"), Wait: 1}
@@ -96,6 +103,12 @@ func genC10(t *Tape, tier string) *Scenario {
 			add(fmt.Sprintf("AUTH SIMPLE %s", b64([]byte("user\x00pw"))), "!503")
 		}
 		add("MAIL FROM:<ok-in-tls@tls.example>", "250")
+		if x.TLSBdat {
+			add("RCPT TO:<ok-in-tls-rcpt@tls.example>", "250")
+			x.TailIdx = append(x.TailIdx, len(steps))
+			x.Tail = append(x.Tail, "250")
+			steps = append(steps, Step{Kind: kBdat, Data: line("BDAT 25 LAST")}, Step{Kind: kPayload, Data: []byte("twenty-five octets long\r\n"), Wait: 1})
+		}
 	}
 	add("NOOP", "250")
 	add("QUIT", "221")
